@@ -52,6 +52,9 @@ class Gen:
             w, v = self.marker()
             W += ["a", "=", w, ";"]
             return ("Assignment", v)
+        if k == "SCOPE":
+            W.append("{"); inner = self.seq(it[1]); W.append("}")
+            return ("Scope", inner)
         if k == "DECLD":
             W += ["bit", "d", ";"]
             return ("DeclNoInit", "d")
@@ -207,7 +210,9 @@ class Gen:
         if k == "NEST":
             _, shape = it
             W += {"a+c*a": ["a", "+", "c", "*", "a", ";"], "(a+c)*a": ["(", "a", "+", "c", ")", "*", "a", ";"], "a*c+a": ["a", "*", "c", "+", "a", ";"],
-                  "a-c-a": ["a", "-", "c", "-", "a", ";"], "-a+c": ["-", "a", "+", "c", ";"], "f(a+c,a)": ["f", "(", "a", "+", "c", ",", "a", ")", ";"]}[shape]
+                  "a-c-a": ["a", "-", "c", "-", "a", ";"], "-a+c": ["-", "a", "+", "c", ";"], "f(a+c,a)": ["f", "(", "a", "+", "c", ",", "a", ")", ";"],
+                  "int(a)-c": ["int", "(", "a", ")", "-", "c", ";"], "int[32](a)-c": ["int", "[", "32", "]", "(", "a", ")", "-", "c", ";"],
+                  "int[32](a)+c": ["int", "[", "32", "]", "(", "a", ")", "+", "c", ";"]}[shape]
             return ("Nest", shape)
         if k == "UN":
             _, op = it
@@ -313,6 +318,10 @@ class H(semh.Base):
             lv = s[0]["lvalue"]
             if lv.v != "Identifier" or self.ident_name(R, lv[0]) != "a":
                 raise Violation(f"`{self.label()}`: {where}: the assignment target in the graph is {lv!r}, the source assigns to `a`")
+        elif k == "Scope":
+            if s.v != "Block":
+                raise bad()
+            self.cmp_block(ex, R, s[0]["statements"], e[1], where + ".scope")
         elif k == "DeclNoInit":
             if s.v != "DeclareClassical" or self.ident_name(R, s[0]["name"]) != e[1] or s[0]["initializer"] is not None:
                 raise bad()
@@ -559,7 +568,8 @@ class H(semh.Base):
                     return ("call", self.ident_name(R, x[0]["name"])) + tuple(shape_of(p) for p in (x[0]["params"] or []))
                 return x.v
             want = {"a+c*a": ("Add", "a", ("Mul", "c", "a")), "(a+c)*a": ("Mul", ("Add", "a", "c"), "a"), "a*c+a": ("Add", ("Mul", "a", "c"), "a"),
-                    "a-c-a": ("Sub", ("Sub", "a", "c"), "a"), "-a+c": ("Add", ("Minus", "a"), "c"), "f(a+c,a)": ("call", "f", ("Add", "a", "c"), "a")}[e[1]]
+                    "a-c-a": ("Sub", ("Sub", "a", "c"), "a"), "-a+c": ("Add", ("Minus", "a"), "c"), "f(a+c,a)": ("call", "f", ("Add", "a", "c"), "a"),
+                    "int(a)-c": ("Sub", "a", "c"), "int[32](a)-c": ("Sub", "a", "c"), "int[32](a)+c": ("Add", "a", "c")}[e[1]]
             got = shape_of(s[0])
             if got != want:
                 raise Violation(f"`{self.label()}`: {where}: `{e[1]}` is stored as {got}, the source nests as {want}")
@@ -677,13 +687,16 @@ def build_tasks(quick):
     add("ann:inside-def", [("DEF", "e", [("ANN", ["inner"], M)]), M])
     add("ann:inside-for", [("FOR", "block", [("ANN", ["inner"], M), M], "range"), M])
     add("ann:outer-and-inner", [("ANN", ["outer"], ("WH", "block", [("ANN", ["inner"], M), M])), M])
+    # a nested scope `{ ... }` as the last statement of a block is a statement of that block like any other
+    add("scope:last-in-while", [("WH", "block", [M, ("SCOPE", [M])]), M])
+    add("scope:last-in-if", [("IF", "block", [("SCOPE", [M, M])], "none", []), M])
     add("pragma:1", [M, ("PRAGMA", "some text here 1 2"), M])
     add("pragma:ann", [("PRAGMA", "p q"), ("ANN", ["after pragma"], M)])
     for op in BINOPS:
         add(f"op:{op}", [("OP", op), M])
     for op in "-!":
         add(f"unop:{op}", [("UN", op), M])
-    for shape in ("a+c*a", "(a+c)*a", "a*c+a", "a-c-a", "-a+c", "f(a+c,a)"):
+    for shape in ("a+c*a", "(a+c)*a", "a*c+a", "a-c-a", "-a+c", "f(a+c,a)", "int(a)-c", "int[32](a)-c"):
         add(f"nest-expr:{shape}", [("NEST", shape), M])
     for lit in ("int", "float", "true", "false", "bits", "timing", "timingf", "imag", "imagf", "hex", "bin"):
         add(f"lit:{lit}", [("LIT", lit), M])
